@@ -160,14 +160,14 @@ func astconcMain(args []string) int {
 	}
 	defer f.Close()
 	type sum struct {
-		Schedules  int           `json:"schedules"`
-		Evals      int           `json:"evals"`
-		Blocked    int           `json:"blocked_steps"`
-		Bad        []concBad     `json:"bad"`
+		Schedules  int            `json:"schedules"`
+		Evals      int            `json:"evals"`
+		Blocked    int            `json:"blocked_steps"`
+		Bad        []concBad      `json:"bad"`
 		BadBySig   map[string]int `json:"bad_by_sig"`
-		Samples    []interface{} `json:"samples"`
-		StressRuns int           `json:"stress_runs"`
-		WallS      float64       `json:"wall_s"`
+		Samples    []interface{}  `json:"samples"`
+		StressRuns int            `json:"stress_runs"`
+		WallS      float64        `json:"wall_s"`
 	}
 	S := sum{BadBySig: map[string]int{}}
 	addBad := func(b concBad) {
